@@ -1575,13 +1575,45 @@ def _with_fields(st: SymState, fields) -> SymState:
     return st
 
 
-def cond_eq(conds, a: str, b: str) -> bool:
-    """do the path conditions assert ``a == b`` (written either way round, positively or as a refuted ``!=``)?"""
-    return any(c in conds for c in ('+%s == %s' % (a, b), '+%s == %s' % (b, a), '-%s != %s' % (a, b), '-%s != %s' % (b, a)))
+def _cond_cmp(conds, a: str, b: str, pos_op: str, fold=None) -> bool:
+    neg_op = '!=' if pos_op == '==' else '=='
+    if any(c in conds for c in ('+%s %s %s' % (a, pos_op, b), '+%s %s %s' % (b, pos_op, a), '-%s %s %s' % (a, neg_op, b), '-%s %s %s' % (b, neg_op, a))):
+        return True
+    if fold is None:
+        return False
+    # by value: ``a == 1`` says ``a == Cls.command_field`` when that constant folds to 1 (an IntEnum member, a named constant)
+    try:
+        vb = fold(ast.parse(b, mode='eval').body)
+    except SyntaxError:
+        return False
+    if vb is None:
+        return False
+    for c in conds:
+        pol, txt = c[:1], c[1:]
+        for op_, want_pol in ((pos_op, '+'), (neg_op, '-')):
+            if pol != want_pol:
+                continue
+            for l_, r_ in ((a + ' ' + op_ + ' ', None), (None, ' ' + op_ + ' ' + a)):
+                other = txt[len(l_):] if l_ is not None and txt.startswith(l_) else txt[:-len(r_)] if r_ is not None and txt.endswith(r_) else None
+                if other is None:
+                    continue
+                try:
+                    vo = fold(ast.parse(other, mode='eval').body)
+                except SyntaxError:
+                    continue
+                if vo is not None and vo == vb and type(vo) is not bool:
+                    return True
+    return False
 
 
-def cond_ne(conds, a: str, b: str) -> bool:
-    return any(c in conds for c in ('-%s == %s' % (a, b), '-%s == %s' % (b, a), '+%s != %s' % (a, b), '+%s != %s' % (b, a)))
+def cond_eq(conds, a: str, b: str, fold=None) -> bool:
+    """do the path conditions assert ``a == b`` (written either way round, positively or as a refuted ``!=``)?  With ``fold`` the
+    other side of a comparison with ``a`` may be any expression that folds to the same constant as ``b``."""
+    return _cond_cmp(conds, a, b, '==', fold)
+
+
+def cond_ne(conds, a: str, b: str, fold=None) -> bool:
+    return _cond_cmp(conds, a, b, '!=', fold)
 
 
 def iteration_paths(client: SymClient, loop: ast.AST):
